@@ -55,6 +55,10 @@ theorem and_bool (a b : Region) (ha : a.WF) (hb : b.WF) :
   rw [(rAnd_spec a b ha hb).2.2]
   simp only [(rAnd_spec a b ha hb).2.1]
 
+/-- the value `sraRgnAnd` returns is `!sraSpanListEmpty(dst)` of the region it leaves in `dst` — for
+ALL operands, whatever the number of rectangles (in particular not a truncated count) -/
+theorem and_bool_eq (a b : Region) : (Region.and a b).2 = !(Region.and a b).1.isEmpty := rfl
+
 /-- `sraRgnSubtract` computes the set difference -/
 theorem sub_den (a b : Region) (ha : a.WF) (hb : b.WF) (x y : Int) :
     (Region.sub a b).1.den x y ↔ (a.den x y ∧ ¬ b.den x y) := (rSub_spec a b ha hb).2.1 x y
@@ -67,6 +71,16 @@ theorem sub_bool (a b : Region) (ha : a.WF) (hb : b.WF) :
     (Region.sub a b).2 = true ↔ ∃ x y, a.den x y ∧ ¬ b.den x y := by
   rw [(rSub_spec a b ha hb).2.2]
   simp only [(rSub_spec a b ha hb).2.1]
+
+/-- the value `sraRgnSubtract` returns is `!sraSpanListEmpty(dst)` of the region it leaves in `dst` -/
+theorem sub_bool_eq (a b : Region) : (Region.sub a b).2 = !(Region.sub a b).1.isEmpty := rfl
+
+/-- hence, for well-formed operands: returned TRUE ⇔ `sraRgnEmpty(dst)` is false ⇔ `dst` covers a pixel -/
+theorem and_bool_iff_not_empty (a b : Region) (ha : a.WF) (hb : b.WF) :
+    (Region.and a b).2 = true ↔ ∃ x y, (Region.and a b).1.den x y := (rAnd_spec a b ha hb).2.2
+
+theorem sub_bool_iff_not_empty (a b : Region) (ha : a.WF) (hb : b.WF) :
+    (Region.sub a b).2 = true ↔ ∃ x y, (Region.sub a b).1.den x y := (rSub_spec a b ha hb).2.2
 
 /-- non-vacuity: two overlapping, non-canonical (touching bands with equal x-lists) operands -/
 example : Region.WF [⟨0, 2, [⟨0, 3, ()⟩, ⟨3, 5, ()⟩]⟩, ⟨2, 4, [⟨0, 3, ()⟩, ⟨3, 5, ()⟩]⟩, ⟨7, 9, [⟨-4, 1, ()⟩]⟩] ∧
